@@ -99,3 +99,56 @@ Definition value_roundtrip_ok (fm : format) (v v' : value) : bool :=
   | FJson => value_equiv (canon fm v) v'
   | _ => value_eqb (canon fm v) v'
   end.
+
+(** ** Comparison up to the order of dict entries (a Go map has none): used by
+    the in-kernel replay of sampled cases (coq/cases/cases_c14.v), where the
+    expected outcome was printed with sorted keys. *)
+Fixpoint bytes_leb (a b : bytes) : bool :=
+  match a, b with
+  | [], _ => true
+  | _ :: _, [] => false
+  | x :: a', y :: b' =>
+      if N.ltb (b2n x) (b2n y) then true
+      else if N.ltb (b2n y) (b2n x) then false
+      else bytes_leb a' b'
+  end.
+
+Fixpoint insert_kv {A} (k : bytes) (v : A) (d : list (bytes * A)) : list (bytes * A) :=
+  match d with
+  | [] => [(k, v)]
+  | (k', v') :: t => if bytes_leb k k' then (k, v) :: d else (k', v') :: insert_kv k v t
+  end.
+
+Definition sort_kv {A} (d : list (bytes * A)) : list (bytes * A) :=
+  fold_right (fun kv acc => insert_kv (fst kv) (snd kv) acc) [] d.
+
+Fixpoint value_sort (v : value) : value :=
+  match v with
+  | VList l => VList (map value_sort l)
+  | VDict d => VDict (sort_kv (map (fun kv => (fst kv, value_sort (snd kv))) d))
+  | _ => v
+  end.
+
+Definition fval_sort (v : fval) : fval :=
+  match v with
+  | FDict (Some d) => match value_sort (VDict d) with VDict d' => FDict (Some d') | _ => v end
+  | FList (Some l) => FList (Some (map value_sort l))
+  | _ => v
+  end.
+
+Definition msg_sort (m : msg) : msg := {| m_struct := m_struct m; m_fields := map fval_sort (m_fields m) |}.
+
+Definition errk_eqb (a b : errk) : bool :=
+  match a, b with
+  | EDecode, EDecode | EInvalidMessage, EInvalidMessage | EFormat, EFormat | EUnknownType, EUnknownType => true
+  | EField i, EField j => Nat.eqb i j
+  | _, _ => false
+  end.
+
+Definition outcome_eqb (a b : outcome) : bool :=
+  match a, b with
+  | OOk x, OOk y => msg_eqb (msg_sort x) (msg_sort y)
+  | OErr x, OErr y => errk_eqb x y
+  | OPanic, OPanic | OUnsup, OUnsup | OFuel, OFuel => true
+  | _, _ => false
+  end.
